@@ -49,6 +49,26 @@ def gen_flow_leaf(rng):
 
 
 _NOCACHE = {}
+_LAYOUTS = {}
+
+
+def layout_object(kind):
+    """"std": a fresh StandardTextLayout; "mirror": a layout that lays left-aligned text out right-aligned and
+    vice versa (a user-defined TextLayout in the documented sense: same interface, different result)"""
+    from urwid import text_layout
+
+    if kind == "std":
+        return text_layout.StandardTextLayout()
+    if "mirror" not in _LAYOUTS:
+
+        class MirrorLayout(text_layout.StandardTextLayout):
+            def layout(self, text, width, align, wrap):
+                flip = {"left": "right", "right": "left"}
+                a = getattr(align, "value", align)
+                return super().layout(text, width, flip.get(a, a), wrap)
+
+        _LAYOUTS["mirror"] = MirrorLayout
+    return _LAYOUTS["mirror"]()
 
 
 def nocache_text_class():
@@ -321,7 +341,13 @@ def propose(rng, w):
     elif isinstance(w, urwid.SelectableIcon):
         c += [["set_text", rng.choice(["*", "ic", "[ ]"])]]
     elif isinstance(w, urwid.Text):
-        c += [["set_text", text_of(rng)], ["set_align_mode", rng.choice(ALIGN)], ["set_wrap_mode", rng.choice(WRAP)]]
+        c += [
+            ["set_text", text_of(rng)],
+            ["set_align_mode", rng.choice(ALIGN)],
+            ["set_wrap_mode", rng.choice(WRAP)],
+            # same or different align / wrap, standard or mirrored layout object
+            ["set_layout", rng.choice(["same", "same", *ALIGN]), rng.choice(["same", "same", *WRAP[:3]]), rng.choice(["std", "mirror", "mirror"])],
+        ]
     elif isinstance(w, urwid.CheckBox):
         c += [["set_state", rng.random() < 0.5], ["toggle_state"], ["set_label", text_of(rng).replace("\n", " ")], ["keypress", " "]]
     elif isinstance(w, urwid.Button):
@@ -387,6 +413,10 @@ def apply_mutation(w, op, size):
     a = op[1:]
     if name in ("set_edit_text", "set_edit_pos", "set_caption", "insert_text", "set_text", "set_align_mode", "set_wrap_mode", "set_state", "set_label", "set_completion", "set_title", "set_scrollpos"):
         getattr(w, name)(a[0])
+    elif name == "set_layout":
+        align = w.align if a[0] == "same" else a[0]
+        wrap = w.wrap if a[1] == "same" else a[1]
+        w.set_layout(align, wrap, layout_object(a[2]))
     elif name == "toggle_state":
         w.toggle_state()
     elif name == "keypress":
